@@ -8,7 +8,8 @@ def showL (l : List Entry) : String := if l.isEmpty then "." else ",".intercalat
 def remoteFeats : List Feat := [
   ⟨[0], 0, 100, .special⟩,
   ⟨[1], 1, 1, .client⟩, ⟨[1], 2, 2, .client⟩, ⟨[1], 3, 0, .client⟩, ⟨[1], 4, 1, .server⟩,
-  ⟨[2], 1, 1, .client⟩ ]
+  ⟨[2], 1, 1, .client⟩,
+  ⟨[1, 1], 1, 1, .client⟩, ⟨[1, 1], 4, 1, .server⟩ ]
 def localFeats : List Feat := [
   ⟨[0], 0, 100, .special⟩, ⟨[0], 1, 3, .server⟩,
   ⟨[1], 1, 1, .server⟩, ⟨[1], 2, 2, .server⟩, ⟨[1], 3, 1, .client⟩,
@@ -19,3 +20,8 @@ def init : St := { loc := localFeats, rem := fun _ => remoteFeats }
 def b (x : Bool) : String := if x then "ok" else "err"
 def nats (ws : List String) : Option (List Nat) := ws.mapM String.toNat?
 def bit (n : Nat) : Bool := n != 0
+/-- address decorations of the harness (`sd<k>`: device part of the server address, `cd<k>`: device part of the client
+    address of a request call) do not reach the model: the code as written resolves both by entity and feature only -/
+def isDecor (t : String) : Bool :=
+  (t.startsWith "sd" || t.startsWith "cd") && t.length > 2 && (t.drop 2).all Char.isDigit
+def stripDecor (ws : List String) : List String := ws.filter (!isDecor ·)
